@@ -239,8 +239,6 @@ def oracle_ring(case, out):
             return ('ForEach-stops-when-its-callback-says-so', summary)
         if mq.group(11) != '1':
             return ('a-slot-owns-its-element-and-refuses-a-second-one', summary)
-        if mq.group(11) != '1':
-            return ('a-slot-owns-its-element-and-refuses-a-second-one', summary)
     elif m.group(5):
         return ('summary', summary)
     allc = outl + rest
